@@ -722,7 +722,12 @@ func (x *X) havocLoc(st, pre *State, p *PtrV) {
 		if !x.enc.bv {
 			x.vc.assume(T(SBool, fmt.Sprintf("(forall ((i Int)) (! (=> (and (<= 0 i) (< i %s)) (= (select %s (+ %s i)) (select %s (+ %s i)))) :pattern ((select %s (+ %s i)))))", ol.S, ni.S, no.S, oi.S, oo.S, ni.S, no.S)))
 		}
-		// elements are well-formed values
+		// elements are well-formed values; what they refer to exists (heap
+		// well-formedness: no reference to an object that is not allocated yet)
+		if es == SAny && !x.enc.bv {
+			x.anyRef(T(SAny, "ANil"))
+			x.vc.assume(T(SBool, fmt.Sprintf("(forall ((i Int)) (! (< (anyref (select %s i)) %s) :pattern ((select %s i))))", ni.S, x.get(st, x.allocKey()).S, ni.S)))
+		}
 		st.mem[k] = x.vc.define("h", mkStore(arr, nb, ni))
 	}
 	x.store(st, p, nv)
